@@ -322,38 +322,14 @@ func genBytes(seed uint32, n int) []byte {
 	return b
 }
 
-const fpMod = 2305843009213693951 // 2^61 - 1
+const fpMod = 72057594037927931 // 2^56 - 5
 
 func fingerprint(b []byte) uint64 {
 	var h uint64
 	for _, x := range b {
-		// (h*257 + x + 1) mod p without overflow: h < 2^61, 257*h < 2^70 -> use 128-bit via splitting
-		hi, lo := mul64(h, 257)
-		h = mod128(hi, lo, fpMod)
-		h = (h + uint64(x) + 1) % fpMod
+		h = (h*31 + uint64(x) + 1) % fpMod // h < 2^56: no overflow
 	}
 	return h
-}
-
-func mul64(a, b uint64) (hi, lo uint64) {
-	const mask32 = 1<<32 - 1
-	a0, a1 := a&mask32, a>>32
-	b0, b1 := b&mask32, b>>32
-	w0 := a0 * b0
-	t := a1*b0 + w0>>32
-	w1 := t & mask32
-	w2 := t >> 32
-	w1 += a0 * b1
-	hi = a1*b1 + w2 + w1>>32
-	lo = a * b
-	return
-}
-
-// (hi*2^64 + lo) mod (2^61-1), using 2^61 = 1 (mod p)
-func mod128(hi, lo, p uint64) uint64 {
-	// value = hi*2^64 + lo = hi*8*2^61 + lo = hi*8 + (lo >> 61) + (lo & p)  (mod p)
-	r := (hi*8)%p + (lo >> 61) + (lo & p)
-	return r % p
 }
 
 func lenFp(fs [][]byte) string {
